@@ -23,6 +23,7 @@ mod c12;
 mod c01;
 mod c15;
 mod c13;
+mod c16;
 
 #[global_allocator]
 static GLOBAL: allocrec::Rec = allocrec::Rec;
@@ -58,6 +59,7 @@ fn main() {
         "C01" => c01::run(&mut out, tier, seed, corpus.as_deref()),
         "C15" => c15::run(&mut out, tier, seed, corpus.as_deref()),
         "C13" => c13::run(&mut out, tier, seed, corpus.as_deref()),
+        "C16" => c16::run(&mut out, tier, seed, corpus.as_deref()),
         "C17" => c17::run(&mut out, tier, seed, corpus.as_deref()),
         "C14" => c14::run(&mut out, tier, seed, corpus.as_deref()),
         "C11" | "C10" => c11::run(&mut out, tier, seed, corpus.as_deref(), prop),
